@@ -333,6 +333,42 @@ theorem dropWhile_append_of_all {p : UInt8 → Bool} {l : Bytes} (a : UInt8) (ha
       simp [hb, ih h]
     · simp [hb] at h
 
+theorem dropWhile_append_of_all_true {p : UInt8 → Bool} {l : Bytes} (a : UInt8) (ha : p a = true)
+    (h : l.dropWhile p = []) : (l ++ [a]).dropWhile p = [] := by
+  induction l with
+  | nil => simp [ha]
+  | cons b t ih =>
+    by_cases hb : p b = true
+    · simp only [List.dropWhile_cons, hb, if_true] at h
+      simp [hb, ih h]
+    · simp [hb] at h
+
+theorem idTail_append_lf (r0 : Bytes) : idTail (r0 ++ [LF]) = idTail r0 := by
+  unfold idTail
+  cases h1 : r0.dropWhile isWsB with
+  | nil => rw [dropWhile_append_of_all_true LF (by decide) h1]
+  | cons e r1 =>
+    rw [(dropWhile_append_of_stop [LF] h1).1]
+    simp only
+    by_cases he : (e == EQ) = true
+    · rw [if_pos he, if_pos he]
+      cases h2 : r1.dropWhile isWsB with
+      | nil => rw [dropWhile_append_of_all_true LF (by decide) h2]
+      | cons q rest =>
+        rw [(dropWhile_append_of_stop [LF] h2).1]
+        simp only
+        by_cases hq : isQuoteB q = true
+        · rw [if_pos hq, if_pos hq]
+          cases h3 : rest.dropWhile isDigit with
+          | nil =>
+            rw [dropWhile_append_of_all LF (by decide) h3]
+            simp [LF, isQuoteB]
+          | cons q2 t =>
+            have := dropWhile_append_of_stop [LF] h3
+            rw [this.1, this.2]
+        · rw [if_neg hq, if_neg hq]
+    · rw [if_neg he, if_neg he]
+
 theorem idHere_append_lf (b : Bytes) : idHere (b ++ [LF]) = idHere b := by
   unfold idHere
   cases hd : dropFold midPrefix b with
@@ -340,14 +376,7 @@ theorem idHere_append_lf (b : Bytes) : idHere (b ++ [LF]) = idHere b := by
     rw [dropFold_none_append_lf (by decide) hd]
   | some rest =>
     rw [dropFold_append [LF] hd]
-    simp only
-    cases hq : rest.dropWhile isDigit with
-    | nil =>
-      rw [dropWhile_append_of_all LF (by decide) hq]
-      simp [LF, QUOTE]
-    | cons q r =>
-      have := dropWhile_append_of_stop [LF] hq
-      rw [this.1, this.2]
+    exact idTail_append_lf rest
 
 theorem firstId_append_lf (b : Bytes) : firstId (b ++ [LF]) = firstId b := by
   induction b with
